@@ -207,6 +207,11 @@ class Harness:
                 if n.arguments in ("s", "min", "h"):
                     return f"base {dict(s=1, min=60, h=3600)[n.arguments]}/1 {enc(n.arguments)}"
                 return "failing base"
+            if name == "Run counter":
+                try:
+                    int(n.arguments)
+                except ValueError:
+                    return "failing runcounter"
             return f"simple {enc(name)}"
         if isinstance(n, (p.EngineCommandNode, p.UodCommandNode)):
             return f"cmd {enc(n.instruction_name)} {int(n.instruction_name == 'Unknowncmd')}"
